@@ -69,6 +69,9 @@ type fileRewriter struct {
 	nMaps   *int
 }
 
+// knobs: names of integer constants the simulator may vary per run
+var knobs = map[string]bool{}
+
 func (r *fileRewriter) off(p token.Pos) int { return r.file.Offset(p) }
 
 func (r *fileRewriter) site(p token.Pos, kind string) int {
@@ -480,6 +483,21 @@ func (r *fileRewriter) expr(e ast.Expr) {
 			return
 		}
 		r.exprChildrenOfCall(n)
+	case *ast.Ident:
+		// tuning knob: a use of a named integer constant becomes T(__vs.KnobInt("Name", Name)), T being the type the
+		// constant has at this use (the simulator may substitute another value per run)
+		if knobs[n.Name] && r.info != nil {
+			if tv, ok := r.info.Types[n]; ok && tv.Value != nil {
+				if bt, ok := tv.Type.Underlying().(*types.Basic); ok && bt.Info()&types.IsInteger != 0 {
+					tn := bt.Name()
+					if bt.Kind() == types.UntypedInt {
+						tn = "int"
+					}
+					r.insPrefix(n.Pos(), fmt.Sprintf("%s(__vs.KnobInt(%q, ", tn, n.Name))
+					r.insSuffix(n.End(), "))")
+				}
+			}
+		}
 	case *ast.UnaryExpr:
 		if n.Op == token.ARROW {
 			r.expr(n.X)
@@ -553,7 +571,13 @@ func main() {
 	modpath := flag.String("mod", "github.com/go-task/task/v3", "module path")
 	goBin := flag.String("go", "", "go binary used for `go list -export` (enables map-range rewriting)")
 	modfile := flag.String("modfile", "", "alternative go.mod for go list")
+	knobList := flag.String("knob", "", "comma separated names of integer constants whose uses become __vs.KnobInt calls")
 	flag.Parse()
+	for _, k := range strings.Split(*knobList, ",") {
+		if k != "" {
+			knobs[k] = true
+		}
+	}
 	if *out == "" {
 		fmt.Fprintln(os.Stderr, "instrument: -out required")
 		os.Exit(2)
